@@ -112,6 +112,55 @@ func c09Histories(t *testing.T) {
 		gen.NonTrivial("c09hist", fmt.Sprint(hist), rawA[:40])
 		gen.Class("history:parsed-messages")
 	})
+	// Inputs whose TOTAL length is a round number (the 16 KiB buffer of the guest driver, other powers of two and their
+	// neighbours), the bytes behind the signed data all zero, ending in zero bytes, or not: every byte is part of the quote.
+	gen.Direct(t, "round-total-lengths-with-zero-tails", func(t *testing.T) {
+		i := 0
+		for _, total := range []int{4096, 8191, 8192, 8193, 16383, 16384, 16385, 32768, 65535, 65536, 65537} {
+			for _, tail := range []string{"all-zero", "ends-in-one-zero", "ends-in-many-zeros", "ends-in-ff", "zero-then-one"} {
+				i++
+				if !gen.ShardOwns(i) {
+					continue
+				}
+				s := gen.NewStream(gen.Seed()+uint64(i), "c09round")
+				q := gen.RandomRefQuote(s, 32, 100, 0)
+				base := len(q.Encode())
+				if total <= base {
+					continue
+				}
+				extra := s.Bytes(total - base)
+				switch tail {
+				case "all-zero":
+					extra = make([]byte, total-base)
+				case "ends-in-one-zero":
+					extra[len(extra)-1] = 0
+					if len(extra) > 1 {
+						extra[len(extra)-2] = 0x5a
+					}
+				case "ends-in-many-zeros":
+					for k := len(extra) / 2; k < len(extra); k++ {
+						extra[k] = 0
+					}
+				case "ends-in-ff":
+					extra[len(extra)-1] = 0xff
+				default:
+					for k := range extra {
+						extra[k] = 0
+					}
+					extra[len(extra)-1] = 1
+				}
+				q.Extra = extra
+				q.FixSizes()
+				raw := q.Encode()
+				if len(raw) != total {
+					gen.HarnessError(t, "own quote has %d bytes, wanted %d", len(raw), total)
+				}
+				c09Check(t, raw, fmt.Sprintf("total length %d, bytes behind the signed data %s", total, tail))
+				gen.NonTrivial("round", total, tail)
+				gen.Class("round-total-length")
+			}
+		}
+	})
 	// A quote may be large: certification data and trailing bytes are bounded by their 32-bit size fields only.
 	gen.Direct(t, "large-quotes", func(t *testing.T) {
 		for i, size := range []int{1 << 20, 16<<20 - 700, 16 << 20, 16<<20 + 1, 20 << 20} {
